@@ -105,6 +105,25 @@ def optional_header_rule(ctx, w):
         ctx.ok(rule, f"{rule}:scan", "", f"{n_opt} optional header fields, none of them pre-set")
 
 
+def verbatim_custom_rule(ctx, w):
+    """A Content-Disposition header is a field of media requests and responses. Its type is matched case-insensitively against `inline` / `attachment`,
+    but a custom type is a value of its own: it is kept as received (the token the sender wrote), not as a case-folded copy - otherwise `Form-Data`
+    is decoded as `form-data` and re-encoded as another header."""
+    rule = "C16.disposition-type"
+    ctx.rule(rule, "TryFrom<&[u8]> for ContentDispositionType: the _Custom variant is built from the unmodified input bytes")
+    ks = [k for k in w.fn_index if re.fullmatch(r"<ruma_common::http_headers::content_disposition::ContentDispositionType as core::convert::TryFrom<&'a \[u8\]>>::try_from", k)]
+    if len(ks) != 1:
+        ctx.missing(rule, f"{rule}:try_from", "TryFrom<&[u8]> for ContentDispositionType not found")
+        return
+    f = w.fn(ks[0])
+    dex = D.Dex(w.lookup, adt_discr=w.adt_discr, inline=lambda n: False, ctors=w.ctors)
+    custom = [D.show(p.ret) for p in dex.paths(f, [D.sym("value")]) if p.kind == "ret" and "_Custom(" in D.show(p.ret)]
+    bad = [r for r in custom if not re.fullmatch(r"Result::Ok\(ContentDispositionType::_Custom\((?:\w+::)*try_from\(value\)\.Ok\.0\)\)|Result::map\((?:\w+::)*try_from\(value\), .*_Custom.*\)", r)]
+    ctx.check(bool(custom) and not bad, rule, f"{rule}:try_from", w.where(f),
+              bad_msg=f"a custom disposition type is built from {[b[:120] for b in bad[:1]] or 'nothing'} rather than from the input bytes: the token is altered on decode "
+                      f"(e.g. `Form-Data` becomes `form-data`) and the header does not survive the round trip")
+
+
 def version_literal_rule(ctx, w):
     """The `metadata!` macro turns the version literals of an endpoint's history (`1.14 => "/path"`) into MatrixVersion values through
     MatrixVersion::from_parts; into_parts is its inverse. A wrong table entry records a path under another version, so select_path offers it to
@@ -546,6 +565,7 @@ def run(ctx):
         from .. import witness
         witness.check(ctx, "C16.witness", {"C16VersionHistoryFields": "VersionHistory can be built field by field from another crate, bypassing the path/version checks of VersionHistory::new"})
     escape_parity_rule(ctx, w)
+    verbatim_custom_rule(ctx, w)
     version_literal_rule(ctx, w)
     if ctx.tier == "thorough":
         header_write_rule(ctx, w)
